@@ -652,4 +652,24 @@ Section ExecProofs.
     tk (xt (SAVE s from to data value gas)) = tk (xt s) /\ tk (xt (EXIT s r)) = tk (xt s).
   Proof. unfold save_call, exit_call. destruct artela; split; reflexivity. Qed.
 
+
+  (** * C12 — a journal instruction is invisible to execution: the loop serves it by updating the tracer
+      only; the world state the program can observe is passed on untouched, and what the instruction did
+      (success or error) is all the frame's machine gets to see *)
+  Theorem journal_step_invisible fuel depth fc m s j ev resume :
+    local_step depth fc m (xw s) = SJournal W M HT j ev resume ->
+    exists s2 rj,
+      RUN (S fuel) depth fc m s = RUN fuel depth fc (resume rj) s2 /\
+      xw s2 = xw s /\
+      rj = snd (jop (jr_storage j) keccak (jr_op j) (f_self fc) (jr_mem j) (jr_stack j) (xt s)) /\
+      tc (xt s2) = tc (xt s).
+  Proof.
+    intros E. cbn [run]. rewrite E.
+    destruct (jop (jr_storage j) keccak (jr_op j) (f_self fc) (jr_mem j) (jr_stack j) (xt (emit W s ev))) as [t' rj] eqn:EJ.
+    eexists. exists rj. split; [reflexivity|]. split; [reflexivity|]. split.
+    - change (xt (emit W s ev)) with (xt s) in EJ. rewrite EJ. reflexivity.
+    - cbn. pose proof (tc_jop (jr_storage j) keccak (jr_op j) (f_self fc) (jr_mem j) (jr_stack j) (xt s)) as T.
+      change (xt (emit W s ev)) with (xt s) in EJ. rewrite EJ in T. exact T.
+  Qed.
+
 End ExecProofs.
